@@ -2065,5 +2065,233 @@ theorem childPreemptableUsage_respects_guarantee (w : World) (c : Nat) (q : PQ) 
   cases h2
   omega
 
+/-! ### quota change preemption is never due before (first lowering still in force) + (delay in force) -/
+
+theorem timingOK_iff (s : QuotaT) : timingOK s = true ↔
+    (s.start = none ∧ s.base = none) ∨ (∃ t b, s.start = some t ∧ s.base = some b ∧ t = b + s.delay) := by
+  unfold timingOK
+  cases hs : s.start <;> cases hb : s.base <;> simp
+
+theorem setPreemptionTime_keeps (alloc : Res) (s : QuotaT) (m : ORes) (d now : Int) (h : timingOK s = true)
+    (hc : goodStep s (.conf m d) = true) : timingOK (setPreemptionTime alloc s m d now) = true := by
+  rw [timingOK_iff] at h
+  simp only [goodStep, Bool.or_eq_true, Option.isNone_iff_eq_none, beq_iff_eq] at hc
+  unfold setPreemptionTime
+  simp only
+  split
+  · simp [timingOK]
+  · split
+    · simp [timingOK]
+    · split
+      · simp [timingOK]
+      · rcases h with ⟨h1, h2⟩ | ⟨t, b, h1, h2, h3⟩
+        · -- nothing pending: a fresh start is now + delay, based now
+          simp only [h1]
+          split
+          · split <;> simp [timingOK, h2]
+          · split
+            · simp [timingOK]
+            · split <;> simp [timingOK, h1, h2]
+        · simp only [h1]
+          have hshift : timingOK (if (s.delay != d) = true then
+              { max := m, delay := d, start := Option.map (fun x => x + (d - s.delay)) (some t), base := s.base }
+              else { max := m, delay := d, start := some t, base := s.base }) = true := by
+            split
+            · simp only [timingOK, h2, Option.map_some, beq_iff_eq]; omega
+            · rename_i hd
+              have : s.delay = d := by simpa using hd
+              simp only [timingOK, h2, beq_iff_eq]; omega
+          split
+          · exact hshift
+          · split
+            · exact hshift
+            · split
+              · exact hshift
+              · -- incomparable change of the maximum: only allowed with an unchanged delay
+                rename_i he hl hg
+                rcases hc with (hc | hc) | hc
+                · rw [h1] at hc; cases hc
+                · exfalso
+                  simp only [comparableMax, Bool.or_eq_true] at hc
+                  rcases hc with (hc | hc) | hc
+                  · exact he hc
+                  · exact hl hc
+                  · exact hg hc
+                · simp only [timingOK, h2, beq_iff_eq]; omega
+
+theorem tryAcquire_keeps (managed : Bool) (alloc : Res) (s : QuotaT) (now : Int) (h : timingOK s = true) :
+    timingOK (tryAcquire managed alloc s now).1 = true := by
+  unfold tryAcquire
+  split
+  · exact h
+  · split
+    · simp [timingOK]
+    · split
+      · exact h
+      · split
+        · exact h
+        · simp [timingOK]
+
+/-- quota preemption fires only when (time the pending lowering was scheduled) + (delay in force) has passed -/
+theorem tryAcquire_fires_late (managed : Bool) (alloc : Res) (s : QuotaT) (now : Int) (h : timingOK s = true)
+    (hf : (tryAcquire managed alloc s now).2 = true) : ∃ b, s.base = some b ∧ b + s.delay ≤ now := by
+  rw [timingOK_iff] at h
+  unfold tryAcquire at hf
+  split at hf
+  · cases hf
+  · split at hf
+    · cases hf
+    · split at hf
+      · cases hf
+      · rename_i t ht
+        split at hf
+        · cases hf
+        · rename_i hlt
+          rcases h with ⟨h1, _⟩ | ⟨t', b, h1, h2, h3⟩
+          · rw [h1] at ht; cases ht
+          · rw [h1] at ht; cases ht
+            exact ⟨b, h2, by omega⟩
+
+theorem quotaStep_keeps (managed : Bool) (alloc : Res) (st : QuotaT × Int) (step : QuotaStep) (h : timingOK st.1 = true)
+    (hg : goodStep st.1 step = true) : timingOK (quotaStep managed alloc st step).1.1 = true := by
+  cases step with
+  | conf m d => exact setPreemptionTime_keeps alloc st.1 m d st.2 h hg
+  | advance d => exact h
+  | «try» => exact tryAcquire_keeps managed alloc st.1 st.2 h
+
+theorem runQuota_keeps (managed : Bool) (alloc : Res) : ∀ (steps : List QuotaStep) (st : QuotaT × Int),
+    timingOK st.1 = true → goodHist managed alloc st steps = true → timingOK (runQuota managed alloc st steps).1 = true := by
+  intro steps
+  induction steps with
+  | nil => intro st h _; exact h
+  | cons s t ih =>
+    intro st h hg
+    simp only [goodHist, Bool.and_eq_true] at hg
+    unfold runQuota
+    rw [List.foldl_cons]
+    exact ih _ (quotaStep_keeps managed alloc st s h hg.1) hg.2
+
+/-! ### the effective preemption policy: `disabled` is inherited, in any spelling -/
+
+theorem find?_filtered_parent (own parent : Reload.Props) (k : String) (hno : ∀ o ∈ own, ¬ o.1 = k) :
+    ((((parent.filter (fun e => !(own.any (fun o => o.1 = e.1)))).map (fun e => (e.1, Reload.filterParentProperty e.1 e.2))).find?
+        (fun e => decide (e.1 = k))).map (·.2)) =
+      ((parent.find? (fun e => decide (e.1 = k))).map (·.2)).map (Reload.filterParentProperty k) := by
+  induction parent with
+  | nil => rfl
+  | cons e t ih =>
+    by_cases hk : e.1 = k
+    · have hkeep : (!own.any (fun o => decide (o.1 = e.1))) = true := by
+        simp only [Bool.not_eq_true', List.any_eq_false, decide_eq_true_eq]
+        intro o ho; rw [hk]; exact hno o ho
+      rw [List.filter_cons, if_pos hkeep, List.map_cons, List.find?_cons, List.find?_cons]
+      simp [hk]
+    · by_cases hkeep : (!own.any (fun o => decide (o.1 = e.1))) = true
+      · rw [List.filter_cons, if_pos hkeep, List.map_cons, List.find?_cons, List.find?_cons]
+        simp only [hk, decide_false]
+        exact ih
+      · rw [List.filter_cons, if_neg hkeep, List.find?_cons]
+        simp only [hk, decide_false]
+        exact ih
+
+theorem get?_mergeProps (own parent : Reload.Props) (k : String) :
+    (Reload.mergeProps own parent).get? k =
+      match own.get? k with
+      | some v => some v
+      | none => (parent.get? k).map (Reload.filterParentProperty k) := by
+  unfold Reload.mergeProps Reload.Props.get?
+  rw [List.find?_append]
+  cases ho : own.find? (fun e => decide (e.1 = k)) with
+  | some e => simp
+  | none =>
+    simp only [Option.none_or, Option.map_none]
+    have hno : ∀ o ∈ own, ¬ o.1 = k := by
+      intro o hom he
+      have := List.find?_eq_none.mp ho o hom
+      simp [he] at this
+    exact find?_filtered_parent own parent k hno
+
+theorem readsDisabled_filter (o : Option String) :
+    readsDisabled (o.map (Reload.filterParentProperty "preemption.policy")) = readsDisabled o := by
+  cases o with
+  | none => rfl
+  | some v =>
+    simp only [Option.map_some, readsDisabled, Reload.filterParentProperty]
+    have h1 : ("preemption.policy" = "priority.policy") = False := by decide
+    have h2 : ("preemption.policy" = "priority.offset") = False := by decide
+    simp only [h1, h2, if_false, if_true]
+    by_cases hv : Reload.lower v = "disabled"
+    · simp [hv]
+    · have hd : (Reload.lower "default" == "disabled") = false := by decide
+      simp [hv, hd]
+
+theorem merged_reads_disabled (qs : List QConf) : ∀ (f i : Nat),
+    readsDisabled ((mergedPropsAux qs f i).get? "preemption.policy") = readsDisabled (nearestPolicyAux qs f i) := by
+  intro f
+  induction f with
+  | zero => intro i; rfl
+  | succ f ih =>
+    intro i
+    unfold mergedPropsAux nearestPolicyAux
+    cases hq : qs[i]? with
+    | none => rfl
+    | some q =>
+      simp only
+      cases hp : q.parent with
+      | none =>
+        simp only
+        cases q.own.get? "preemption.policy" <;> rfl
+      | some p =>
+        simp only
+        rw [get?_mergeProps]
+        cases ho : q.own.get? "preemption.policy" with
+        | some v => rfl
+        | none =>
+          simp only
+          rw [readsDisabled_filter, ih p]
+
+/-- the policy UpdateQueueProperties derives is `disabled` exactly when the nearest configured preemption.policy on the
+    queue's path reads disabled in any spelling -/
+theorem derived_disabled_iff (qs : List QConf) (i : Nat) (q : QConf) (hq : qs[i]? = some q) :
+    (effSettings qs i).preempt = "disabled" ↔ inheritedDisabled qs i = true := by
+  unfold effSettings inheritedDisabled mergedProps
+  simp only [hq]
+  rw [← merged_reads_disabled qs (i + 1) i]
+  simp only [Reload.deriveSettings]
+  cases hg : (mergedPropsAux qs (i + 1) i).get? "preemption.policy" with
+  | none =>
+    have : ("default" = "disabled") = False := by decide
+    simp [readsDisabled, this]
+  | some v =>
+    have e1 : ("fence" = "disabled") = False := by decide
+    have e2 : ("default" = "disabled") = False := by decide
+    simp only [readsDisabled, beq_iff_eq]
+    by_cases hf : Reload.lower v = "fence"
+    · have : ¬ Reload.lower v = "disabled" := by rw [hf]; decide
+      simp [hf, e1, this]
+    · by_cases hd : Reload.lower v = "disabled"
+      · simp [hf, hd]
+      · simp [hf, hd, e2]
+
+theorem confOf_get {w : World} {i : Nat} {q : PQ} (hq : w.queues[i]? = some q) :
+    (confOf w)[i]? = some { parent := q.parent, leaf := q.leaf, own := q.own } := by
+  unfold confOf
+  rw [List.getElem?_map, hq]; rfl
+
+/-- in a world whose queues carry the settings their configuration derives, a queue whose nearest configured
+    preemption.policy reads `disabled` has policy disabled -/
+theorem inherited_disabled_policy (w : World) (hs : settingsDerived w = true) (i : Nat) (q : PQ) (hq : w.queues[i]? = some q)
+    (hd : inheritedDisabled (confOf w) i = true) : q.ppol = 2 := by
+  unfold settingsDerived at hs
+  rw [List.all_eq_true] at hs
+  have := hs i (List.mem_range.mpr (lt_length_of_getElem? hq))
+  simp only [hq, beq_iff_eq] at this
+  have hp : q.ppol = (derivedSettings w i).1 := congrArg Prod.fst this
+  rw [hp]
+  unfold derivedSettings
+  simp only
+  have := (derived_disabled_iff (confOf w) i _ (confOf_get hq)).mpr hd
+  rw [this]; rfl
+
 end Pre
 end Yk
